@@ -68,7 +68,7 @@ impl Exec {
             2 => JoinOutcome::StolenEarly,
             _ => JoinOutcome::Overlap,
         };
-        if o == JoinOutcome::Overlap && !self.overlap {
+        if o == JoinOutcome::Overlap && !(self.overlap && crate::ctl::in_shuttle_thread()) {
             // without the shuttle runtime an overlapped steal degenerates to one of the
             // two sequentialised steals
             if g.chance(0.5) {
